@@ -1,8 +1,151 @@
 import PymtlVerif.Driver.Sexp
-/-! Handler `mem` (stub: not built yet). -/
-namespace PV.Driver.Mem
-open PV
+import PymtlVerif.Model.Mem
+/-!
+Handler `mem`: executable face of `Model/Mem.lean` for the C18 correspondence check.
 
-def handle (_args : List Sexp) : Option String := none
+  mem seq <nb> <image> <log> <dump>
+      image = ((base b0 b1 ...) ...)            initial bytes (0 elsewhere)
+      log   = ((port type opq addr len data) ...)   processed requests, oldest first
+      dump  = (base size)
+      reply: (<resp>*) (<byte>*)                 resp = (port type opq test len data), `seqSpec`
+  mem cl  <nports> <nb> <latency> <image> <reqs> <env> <dump>
+  mem rtl <nports> <nb> <extra_latency> <image> <reqs> <env> <dump>
+      reqs = per port ((type opq addr len data) ...)
+      env  = per cycle (code per port), code = offer/srcVal + 2*stall + 4*sinkRdy
+      reply: ((cycle port) ...) (per port ((cycle type opq test len data) ...)) (<byte>*) (<left per port>*)
+             = processing order with cycles, deliveries to each sink with cycles, final image,
+               number of requests of each port not processed
+  mem amo <w> <type> <m> <a>                     reply: AMO_FUNS value
+An AMO whose len is neither 0 nor nb is outside the model: the request is rejected (`bad-op`).
+-/
+namespace PV.Driver.Mem
+open PV PV.Mem
+
+def amoOp? : Nat → Option AmoOp
+  | 3 => some .add | 4 => some .and | 5 => some .or | 6 => some .swap | 7 => some .min
+  | 8 => some .minu | 9 => some .max | 10 => some .maxu | 11 => some .xor | _ => none
+
+def kind? : Nat → Option Kind
+  | 0 => some .read | 1 => some .write | n => (amoOp? n).map .amo
+
+def req? (nb : Nat) : List Sexp → Option Req
+  | [t, o, a, l, d] => do
+    let k ← kind? (← t.nat?)
+    let len ← l.nat?
+    match k with
+    | .amo _ => if len != 0 && len != nb then none else pure ()
+    | _ => pure ()
+    some ⟨k, ← o.nat?, ← a.nat?, len, ← d.nat?⟩
+  | _ => none
+
+def tagged? (nb : Nat) : Sexp → Option (Nat × Req)
+  | .list (p :: rest) => do some (← p.nat?, ← req? nb rest)
+  | _ => none
+
+def image? (x : Sexp) : Option (List (Nat × Array Nat)) := do
+  let rs ← x.list?
+  rs.mapM fun r => do
+    let ns ← r.nats?
+    match ns with
+    | base :: bytes => some (base, bytes.toArray)
+    | [] => none
+
+def mkStore (img : List (Nat × Array Nat)) : Store := fun b =>
+  img.foldl (fun acc (rg : Nat × Array Nat) =>
+    if rg.1 ≤ b && b < rg.1 + rg.2.size then rg.2.getD (b - rg.1) 0 else acc) 0
+
+def showResp (r : Resp) : String := s!"{r.type} {r.opq} {r.test} {r.len} {r.data}"
+
+def dumpStr (m : Store) (base size : Nat) : String :=
+  "(" ++ " ".intercalate ((List.range size).map fun j => toString (m (base + j))) ++ ")"
+
+def dump? : Sexp → Option (Nat × Nat)
+  | .list [b, s] => do some (← b.nat?, ← s.nat?)
+  | _ => none
+
+def reqs? (nb : Nat) (x : Sexp) : Option (Array (List Req)) := do
+  let ps ← x.list?
+  let ls ← ps.mapM fun p => do
+    let rs ← p.list?
+    rs.mapM fun r => do req? nb (← r.list?)
+  some ls.toArray
+
+def env? (x : Sexp) : Option (Array (Array Nat)) := do
+  let cs ← x.list?
+  let ls ← cs.mapM fun c => do some (← c.nats?).toArray
+  some ls.toArray
+
+def code (env : Array (Array Nat)) (t i : Nat) : Nat := ((env.getD t #[]).getD i 0)
+
+structure Out where
+  log : Array String := #[]
+  deliv : Array (Array String)
+
+def finish (n : Nat) (out : Out) (m : Store) (d : Nat × Nat) (left : List Nat) : String :=
+  let ds := (List.range n).map fun i => "(" ++ " ".intercalate (out.deliv.getD i #[]).toList ++ ")"
+  "(" ++ " ".intercalate out.log.toList ++ ") (" ++ " ".intercalate ds ++ ") " ++ dumpStr m d.1 d.2 ++
+    " (" ++ " ".intercalate (left.map toString) ++ ")"
+
+def record (n t : Nat) (out : Out) (newLog : List (Nat × Req))
+    (newDeliv : Nat → List Resp) : Out := Id.run do
+  let mut o := out
+  for e in newLog do
+    o := { o with log := o.log.push s!"({t} {e.1})" }
+  for i in List.range n do
+    for r in newDeliv i do
+      o := { o with deliv := o.deliv.modify i (·.push s!"({t} {showResp r})") }
+  return o
+
+def runCL (n nb lat : Nat) (m0 : Store) (reqs : Array (List Req)) (env : Array (Array Nat))
+    (d : Nat × Nat) : String := Id.run do
+  let envf : Nat → Nat → CL.Env := fun t i =>
+    let c := code env t i
+    ⟨c % 2 == 1, (c / 2) % 2 == 1, (c / 4) % 2 == 1⟩
+  let mut s := CL.init lat (fun i => reqs.getD i []) m0
+  let mut out : Out := { deliv := Array.replicate n #[] }
+  for t in List.range env.size do
+    let s' := CL.cycle n nb (envf t) s
+    let s0 := s
+    out := record n t out (s'.log.drop s0.log.length)
+      (fun i => (s'.ports i).delivered.drop (s0.ports i).delivered.length)
+    s := s'
+  let sf := s
+  let left := (List.range n).map fun i => (reqs.getD i []).length - (procs i sf.log).length
+  return finish n out sf.store d left
+
+def runRTL (n nb extra : Nat) (m0 : Store) (reqs : Array (List Req)) (env : Array (Array Nat))
+    (d : Nat × Nat) : String := Id.run do
+  let envf : Nat → Nat → RTL.Env := fun t i =>
+    let c := code env t i
+    ⟨c % 2 == 1, (c / 2) % 2 == 1, (c / 4) % 2 == 1⟩
+  let mut s := RTL.init extra (fun i => reqs.getD i []) m0
+  let mut out : Out := { deliv := Array.replicate n #[] }
+  for t in List.range env.size do
+    let s' := RTL.cycle n nb (envf t) s
+    let s0 := s
+    out := record n t out (s'.log.drop s0.log.length)
+      (fun i => (s'.ports i).delivered.drop (s0.ports i).delivered.length)
+    s := s'
+  let sf := s
+  let left := (List.range n).map fun i => (reqs.getD i []).length - (procs i sf.log).length
+  return finish n out sf.store d left
+
+def handle (args : List Sexp) : Option String :=
+  match args with
+  | [.atom "seq", nb, img, .list log, d] => do
+    let nb ← nb.nat?
+    let lg ← log.mapM (tagged? nb)
+    let d ← dump? d
+    let r := runLog nb lg (mkStore (← image? img))
+    some ("(" ++ " ".intercalate (r.1.map fun e => s!"({e.1} {showResp e.2})") ++ ") " ++ dumpStr r.2 d.1 d.2)
+  | [.atom "cl", n, nb, lat, img, reqs, env, d] => do
+    let nb ← nb.nat?
+    some (runCL (← n.nat?) nb (← lat.nat?) (mkStore (← image? img)) (← reqs? nb reqs) (← env? env) (← dump? d))
+  | [.atom "rtl", n, nb, ex, img, reqs, env, d] => do
+    let nb ← nb.nat?
+    some (runRTL (← n.nat?) nb (← ex.nat?) (mkStore (← image? img)) (← reqs? nb reqs) (← env? env) (← dump? d))
+  | [.atom "amo", w, t, m, a] => do
+    some (toString (amoFun (← w.nat?) (← amoOp? (← t.nat?)) (← m.nat?) (← a.nat?)))
+  | _ => none
 
 end PV.Driver.Mem
